@@ -1,6 +1,6 @@
 (* C15: per-block price band.  Statements only. *)
 From MP.Model Require Import Prelude U128 SInt Feed Vamm VammOps Token World Engine Runtime.
-From MP.Proofs Require Import Tactics SIntFacts VammFacts SwapFacts MoreFacts BandFacts.
+From MP.Proofs Require Import Tactics SIntFacts VammFacts SwapFacts MoreFacts BandFacts MirrorFacts CloseChoiceTxFacts.
 From MP.Model Require Import Scenario.
 
 (* with a non-zero limit, a trade that may not go over the limit (every opening / increasing /
@@ -122,3 +122,20 @@ Definition c15_example : bool :=
   end.
 Example C15_nonvacuous : c15_example = true.
 Proof. vm_compute. reflexivity. Qed.
+
+(* END TO END, the close clause.  What a successful ClosePosition transaction leaves behind is decided by the vAMM's
+   answer (on the state the transaction started from) to "would closing the whole position leave the band?": if not,
+   or if the partial ratio is 100%, the position is gone; otherwise exactly floor(size x ratio / D) base is taken off
+   it, its direction kept.  (C15_over_limit_meaning says what the answer means; with a zero limit it is always "no".) *)
+Theorem C15_close_position_tx_choice : forall f w t v lim funds w',
+  exec_op f w (OEngine t (EClosePosition v lim) funds) = Ok w' ->
+  let p := read_position (w_eng w) v t in
+  let c := ec (w_eng w) in
+  let dir := if sgtb (p_size p) szero then AddToAmm else RemoveFromAmm in
+  exists vm over, get_vamm w v = Ok vm /\ q_is_over_fluctuation_limit vm (w_env w) dir (sval (p_size p)) = Ok over /\
+    (over && (e_plr c <? e_dec c) = false -> find_position (w_eng w') v t = None) /\
+    (over && (e_plr c <? e_dec c) = true ->
+       exists p', find_position (w_eng w') v t = Some p' /\ p_dir p' = p_dir p /\
+         sadd (p_size p) (signed_out (position_to_side (p_size p)) (sval (p_size p) * e_plr c / e_dec c)) = Ok (p_size p')).
+Proof. exact close_position_tx_choice. Qed.
+Print Assumptions C15_close_position_tx_choice.
